@@ -1,4 +1,10 @@
-from .mkmanifest import check, NOT_APPLICABLE  # noqa
+CHECKS = {}     # pid -> dict(level, text, note, technique, ref)
+NOT_APPLICABLE = {}
+
+
+def check(pid, level, text, note, technique, ref):
+    CHECKS[pid] = dict(level=level, text=text, note=note, technique=technique, ref=ref)
+
 
 check('C02', 'proof',
       'Every function of the unification family in engine.py (get_value x4, unify, Atom/Functor/Variable.unify, unify_arrays, builtin_eq) is '
